@@ -309,7 +309,7 @@ class _Entries(dict):
         if name.startswith('gen:'):
             from sim import gramgen
             g = gramgen.gen(random.Random(int(name[4:])))
-            e = Entry(name, g['grammar'], g['options'], {'': {}}, samples=g['samples'], texts=[])
+            e = Entry(name, g['grammar'], g['options'], {'': {}}, samples=g['samples'], texts=[], input_kind='bytes' if g['options'].get('use_bytes') else 'str')
             if len(self) > 4000:
                 for k in [k for k in self if k.startswith('gen:')][:2000]:
                     del self[k]
